@@ -21,11 +21,18 @@ def after (cs : List Char) : Pos := cs.foldl advance ⟨1, 1⟩
 structure Cfg where
   sampleAfterLookahead : Bool := true
 
-/-- the location `readField` records for a field whose first token occupies `src[off, off+len)` -/
+/-- the location `readField` records for a field whose first token occupies `src[off, off+len)`.
+As coded in the pinned tree: the counters after the token *and* the look-ahead byte, column minus the token
+length.  Repaired: the counters taken with the token's first byte on deck (just past that byte), before
+the token is read — the same value whenever the look-ahead stays on the line, and the token's own line
+always. -/
 def fieldLoc (cfg : Cfg) (src : List Char) (off len : Nat) : Int × Int :=
-  let consumed := if cfg.sampleAfterLookahead then src.take (off + len + 1) else src.take (off + len)
-  let p := after consumed
-  (p.line, (p.col : Int) - len)
+  if cfg.sampleAfterLookahead then
+    let p := after (src.take (off + len + 1))
+    (p.line, (p.col : Int) - len)
+  else
+    let p := after (src.take (off + 1))
+    (p.line, (p.col : Int))
 
 /-- 1-based line of the byte at offset `off` -/
 def lineOf (src : List Char) (off : Nat) : Nat := (after (src.take off)).line
